@@ -57,13 +57,17 @@ fn run_history(paths: &[&str], calls: &[&str]) -> String {
                 "sk" => {
                     let off: i64 = p[2].parse().unwrap();
                     let method = num(p[3]) as u32;
+                    let mut hi_out: u32 = 0;
                     let r = if off >= i32::MIN as i64 && off <= i32::MAX as i64 && p.len() < 5 {
                         SFileSetFilePointer(h(num(p[1])), off as i32, std::ptr::null_mut(), method)
                     } else {
                         let mut hi: i32 = (off >> 32) as i32;
-                        SFileSetFilePointer(h(num(p[1])), off as i32, &mut hi, method)
+                        let r = SFileSetFilePointer(h(num(p[1])), off as i32, &mut hi, method);
+                        hi_out = hi as u32;
+                        r
                     };
-                    if r == 0xFFFFFFFF && SFileGetLastError() != 0 { err() } else { format!("N{:x}", r) }
+                    // the position reported to the caller is the pair (high out-parameter, return value)
+                    if r == 0xFFFFFFFF && SFileGetLastError() != 0 { err() } else { format!("N{:x}", ((hi_out as u64) << 32) | r as u64) }
                 }
                 "sz" => {
                     let mut hi: u32 = 0;
